@@ -881,7 +881,11 @@ impl World {
     /// channel id) to `contract` with a wasm-hook memo. Atomic: on failure the native sender is
     /// refunded (error acknowledgement).
     pub fn hook_transfer(&mut self, native_sender: &str, channel: &str, amount: u128, contract: &str, msg: &str) -> TxResult {
-        if !self.native_burn(native_sender, NATIVE_DENOM, amount) {
+        self.hook_transfer_token(native_sender, channel, NATIVE_DENOM, amount, contract, msg)
+    }
+
+    pub fn hook_transfer_token(&mut self, native_sender: &str, channel: &str, token: &str, amount: u128, contract: &str, msg: &str) -> TxResult {
+        if !self.native_burn(native_sender, token, amount) {
             return TxResult { ok: false, err: "sim:native:insufficient funds".into(), ..Default::default() };
         }
         let snap = self.begin();
@@ -889,7 +893,7 @@ impl World {
             if !self.open_channels.contains(channel) {
                 return Err("sim:ibc:channel not found".to_string());
             }
-            let denom = ibc_denom_for(channel);
+            let denom = if token == NATIVE_DENOM { ibc_denom_for(channel) } else { format!("ibc/{}", prim::hex(&prim::sha256(format!("transfer/{channel}/{token}").as_bytes())).to_uppercase()) };
             let inter = hook_sender(channel, native_sender, &self.prefix);
             self.mint_raw(&inter, &denom, amount);
             self.log.push(Ev::Hook { channel: channel.into(), orig_sender: native_sender.into(), inter: inter.clone(), contract: contract.into(), denom: denom.clone(), amount });
@@ -897,7 +901,7 @@ impl World {
         })();
         let out = self.finish(snap, r);
         if !out.ok {
-            self.native_mint(native_sender, NATIVE_DENOM, amount);
+            self.native_mint(native_sender, token, amount);
         }
         out
     }
